@@ -560,55 +560,63 @@ func runCase(dir *drv.Dir, sc streamCase, full bool) drv.Outcome {
 func multiInstanceDocs() [][2]string {
 	var out [][2]string
 	add := func(label, body string) { out = append(out, [2]string{label, "JSIGHT 0.3\n" + body}) }
-	names := []string{"x", "y", "z"}
-	for n := 2; n <= 3; n++ {
-		// repeated path parameters: n different names, each twice
-		p1, p2 := "", ""
-		for _, nm := range names[:n] {
-			p1 += "/a" + nm + "/{" + nm + "}"
-			p2 += "/b" + nm + "/{" + nm + "}"
+	// two name sets: ordinary names, and names that differ in letter case only (whatever sorts or
+	// compares names case-insensitively must still be deterministic)
+	for si, names := range [][]string{{"x", "y", "z"}, {"q", "Q", "qq"}} {
+		add := add
+		if si > 0 {
+			base := add
+			add = func(label, body string) { base("case-twins-"+label, body) }
 		}
-		add(fmt.Sprintf("repeated-path-parameters-%d", n), "GET "+p1+p2+"\n  200 any\n")
-		add(fmt.Sprintf("repeated-path-parameters-url-%d", n), "URL "+p1+p2+"\n  GET\n    200 any\n")
-		// undefined types / enums / tags, n of each in one place
-		var refs, enums, tags, decl, dupT, dupE, dupS, dupG, sim, paths, pprops, pseg string
-		for i, nm := range names[:n] {
-			refs += fmt.Sprintf("    \"r%d\": @nope%s", i, nm)
-			enums += fmt.Sprintf("    \"e%d\": 1 // {enum: @nopeE%s}", i, nm)
-			if i < n-1 {
-				refs += ","
-				enums = strings.Replace(enums, " // {enum: @nopeE"+nm+"}", ", // {enum: @nopeE"+nm+"}", 1)
+		for n := 2; n <= 3; n++ {
+			// repeated path parameters: n different names, each twice
+			p1, p2 := "", ""
+			for _, nm := range names[:n] {
+				p1 += "/a" + nm + "/{" + nm + "}"
+				p2 += "/b" + nm + "/{" + nm + "}"
 			}
-			refs += "\n"
-			enums += "\n"
-			tags += " @nopeT" + nm
-			decl += "TYPE @d" + nm + " any\n"
-			dupT += "TYPE @d" + nm + " any\n"
-			dupE += "ENUM @e" + nm + "\n  [1]\n"
-			dupS += "SERVER @s" + nm + "\n  BaseUrl \"http://" + nm + "\"\n"
-			dupG += "TAG @g" + nm + "\n"
-			sim += "GET /s" + nm + "/{p}\n  200 any\nGET /s" + nm + "/{q}\n  200 any\n"
-			paths += "GET /dup" + nm + "\n  200 any\n"
-			pseg += "/{" + nm + "}"
-			pprops += fmt.Sprintf("      \"%s\": 1,\n      \"unused%s\": 2", nm, nm)
-			if i < n-1 {
-				pprops += ","
+			add(fmt.Sprintf("repeated-path-parameters-%d", n), "GET "+p1+p2+"\n  200 any\n")
+			add(fmt.Sprintf("repeated-path-parameters-url-%d", n), "URL "+p1+p2+"\n  GET\n    200 any\n")
+			// undefined types / enums / tags, n of each in one place
+			var refs, enums, tags, decl, dupT, dupE, dupS, dupG, sim, paths, pprops, pseg string
+			for i, nm := range names[:n] {
+				refs += fmt.Sprintf("    \"r%d\": @nope%s", i, nm)
+				enums += fmt.Sprintf("    \"e%d\": 1 // {enum: @nopeE%s}", i, nm)
+				if i < n-1 {
+					refs += ","
+					enums = strings.Replace(enums, " // {enum: @nopeE"+nm+"}", ", // {enum: @nopeE"+nm+"}", 1)
+				}
+				refs += "\n"
+				enums += "\n"
+				tags += " @nopeT" + nm
+				decl += "TYPE @d" + nm + " any\n"
+				dupT += "TYPE @d" + nm + " any\n"
+				dupE += "ENUM @e" + nm + "\n  [1]\n"
+				dupS += "SERVER @s" + nm + "\n  BaseUrl \"http://" + nm + "\"\n"
+				dupG += "TAG @g" + nm + "\n"
+				sim += "GET /s" + nm + "/{p}\n  200 any\nGET /s" + nm + "/{q}\n  200 any\n"
+				paths += "GET /dup" + nm + "\n  200 any\n"
+				pseg += "/{" + nm + "}"
+				pprops += fmt.Sprintf("      \"%s\": 1,\n      \"unused%s\": 2", nm, nm)
+				if i < n-1 {
+					pprops += ","
+				}
+				pprops += "\n"
 			}
-			pprops += "\n"
+			add(fmt.Sprintf("undefined-types-%d", n), "TYPE @t\n  {\n"+refs+"  }\n")
+			add(fmt.Sprintf("undefined-types-in-response-%d", n), "GET /u\n  200\n  {\n"+refs+"  }\n")
+			add(fmt.Sprintf("undefined-enums-%d", n), "TYPE @t\n  {\n"+enums+"  }\n")
+			add(fmt.Sprintf("undefined-tags-%d", n), "GET /u\n  Tags"+tags+"\n  200 any\n")
+			add(fmt.Sprintf("duplicate-types-%d", n), decl+dupT)
+			add(fmt.Sprintf("duplicate-enums-%d", n), dupE+dupE)
+			add(fmt.Sprintf("duplicate-servers-%d", n), dupS+dupS)
+			add(fmt.Sprintf("duplicate-tags-%d", n), dupG+dupG)
+			add(fmt.Sprintf("similar-paths-%d", n), sim)
+			add(fmt.Sprintf("duplicate-paths-%d", n), paths+paths)
+			add(fmt.Sprintf("unused-path-properties-%d", n), "GET /pp"+pseg+"\n  Path\n    {\n"+pprops+"    }\n  200 any\n")
+			// accepted documents with n entries in every collection
+			add(fmt.Sprintf("n-of-everything-%d", n), dupE+dupS+dupG+decl+"GET /ok"+pseg+"\n  Tags"+strings.ReplaceAll(tags, "@nopeT", "@g")+"\n  200 any\n")
 		}
-		add(fmt.Sprintf("undefined-types-%d", n), "TYPE @t\n  {\n"+refs+"  }\n")
-		add(fmt.Sprintf("undefined-types-in-response-%d", n), "GET /u\n  200\n  {\n"+refs+"  }\n")
-		add(fmt.Sprintf("undefined-enums-%d", n), "TYPE @t\n  {\n"+enums+"  }\n")
-		add(fmt.Sprintf("undefined-tags-%d", n), "GET /u\n  Tags"+tags+"\n  200 any\n")
-		add(fmt.Sprintf("duplicate-types-%d", n), decl+dupT)
-		add(fmt.Sprintf("duplicate-enums-%d", n), dupE+dupE)
-		add(fmt.Sprintf("duplicate-servers-%d", n), dupS+dupS)
-		add(fmt.Sprintf("duplicate-tags-%d", n), dupG+dupG)
-		add(fmt.Sprintf("similar-paths-%d", n), sim)
-		add(fmt.Sprintf("duplicate-paths-%d", n), paths+paths)
-		add(fmt.Sprintf("unused-path-properties-%d", n), "GET /pp"+pseg+"\n  Path\n    {\n"+pprops+"    }\n  200 any\n")
-		// accepted documents with n entries in every collection
-		add(fmt.Sprintf("n-of-everything-%d", n), dupE+dupS+dupG+decl+"GET /ok"+pseg+"\n  Tags"+strings.ReplaceAll(tags, "@nopeT", "@g")+"\n  200 any\n")
 	}
 	// lists with repetitions: every Tags list of length 2..4 over three declared tags that names some
 	// tag twice, at every level that takes a list (method, URL, JSON-RPC method); and the same for
